@@ -14,7 +14,13 @@ package mqttproxy
 //            gracenet.ListenHook on simnet; the cap is changed with
 //            HTTPServer.Inherit (eventReload through the runtime's event channel).
 //   mqtt     the real mqttproxy Broker listening through netshim on simnet; raw
-//            MQTT clients (paho packets codec).
+//            MQTT clients (paho packets codec); an admin task sends session
+//            deletes to the real httpDeleteSessionHandler (store delete ->
+//            delete watch -> Broker.deleteSession); optionally a Disconnect
+//            pipeline that takes its time (gates, virtual time) is configured.
+//            A scenario family aims session deletes (admin request, or the
+//            broker's own removal of a clean session) at the instant the same
+//            client id reconnects, with other ids filling the table afterwards.
 //
 // Oracle (written from the property statement, not from the code):
 //
@@ -33,7 +39,13 @@ package mqttproxy
 // MQTT. len(Broker.clients) <= maxAllowedConnection at every scheduling step
 // (C17.mqtt-cap-exceeded); independently, from what the clients see, the
 // number of client ids that are certainly connected never exceeds the cap
-// (C17.mqtt-over-cap-served); a "server unavailable" CONNACK is only legal if
+// (C17.mqtt-over-cap-served); the number of client ids that are open AND
+// served at one instant never exceeds the cap (C17.mqtt-over-cap-answering): a
+// connection counts as served from the instant its client read CONNACK
+// accepted up to the instant it sent a PINGREQ that was answered and followed
+// by another answered PINGREQ (evidence from the wire only; every scripted
+// connection pings, and at the end all connections still open are pinged in
+// two rounds, the "roll call"); a "server unavailable" CONNACK is only legal if
 // the ids that may still occupy a slot reach the cap
 // (C17.mqtt-refused-below-cap); after every client has gone the broker holds
 // no slot any more and admits cap fresh clients (C17.mqtt-capacity-not-released,
@@ -41,20 +53,34 @@ package mqttproxy
 // all belong to clients that went away before reading their CONNACK).
 //
 // Leniency decisions (statement silent / two readings):
+//   * a connection the broker has dropped from its table (session delete,
+//     takeover) stays open at TCP level until its next packet arrives, and the
+//     broker may still answer that one packet: such a connection is not counted
+//     as served (hence two answered pings, not one; probe
+//     mqtt.dropped_connection_answered_one_more_ping shows that it happens);
+//     connections with the same client id count as one client;
+//   * the statement does not say that a session delete frees the slot at once
+//     or at all before the connection is really closed: nothing is asserted
+//     about admission right after a delete (the client-side "may occupy a slot"
+//     set keeps the id until the client has seen the connection closed); ids
+//     that were the target of a session delete leave the "certainly connected"
+//     set of C17.mqtt-over-cap-served for the rest of the run;
+//   * a new connection that is closed by a session-delete event meant for its
+//     predecessor (known finding C16.reconnect.killed-by-own-delete-event) is
+//     accepted here: it is closed, not served beyond the cap;
 //   * a takeover of a connected id while the broker is at its cap may be
 //     accepted or refused (counted by probes mqtt.takeover_at_cap_*);
-//   * CleanSession=true is only used with client ids that occur once in a run
-//     (an id that reconnects with CleanSession while its old connection is torn
-//     down makes the broker panic in Session.close - a session/takeover matter,
-//     property C16), and such ids are not counted in the client-side
-//     "certainly connected" set (the broker's own session-delete watch may
-//     disconnect such a client at any time);
+//   * ids used with CleanSession=true (ids of their own in most runs, pool ids
+//     in the others) are not counted in the client-side "certainly connected"
+//     set of C17.mqtt-over-cap-served (the broker's own session-delete watch
+//     may disconnect such a client at any time); the ping evidence covers them;
 //   * a client that leaves before reading its CONNACK always resets the
 //     connection (RST); a plain close is not generated because simnet fails the
 //     server's next write at once, which real TCP does not do after a FIN;
 //   * SetMaxConnection / reloads come from one admin task (their order is then
 //     known); server restarts (port/TLS changes) are not generated;
-//   * MaxAllowedConnection = 0 (unlimited) and the MQTT connection rate limiter
+//   * MaxAllowedConnection = 0 (unlimited), the MQTT connection rate limiter,
+//     keep-alive expiry and an interrupted session watch (reconnectWatcher)
 //     are not generated;
 //   * listener errors: only temporary Accept errors of the inner listener are
 //     injected (http-ll), which net/http retries.
@@ -147,7 +173,7 @@ type c17Scenario struct {
 	HClients    []c17HClient `json:"h_clients"`
 	Admin       []c17Resize  `json:"admin"`
 	MClients    []c17MClient `json:"m_clients"`
-	MAdmin      []c17MDel    `json:"m_admin"`    // mqtt: session deletes through the admin handler
+	MAdmin      []c17MDel    `json:"m_admin"`     // mqtt: session deletes through the admin handler
 	DiscYields  int          `json:"disc_yields"` // mqtt: > 0 = a Disconnect pipeline is configured; its handler passes that many gates ...
 	DiscUs      int64        `json:"disc_us"`     // ... and takes that long
 }
@@ -323,7 +349,9 @@ func c17GenMQTTEvict(rng *sim.Rand, sc *c17Scenario, echo bool) {
 		}
 		return 0
 	}
-	end := func() string { return rng.PickStr("linger", "linger", "linger", "linger", "close", "disconnect", "reset") }
+	end := func() string {
+		return rng.PickStr("linger", "linger", "linger", "linger", "close", "disconnect", "reset")
+	}
 	pre := sc.Cap - 2
 	if rng.Bool(0.25) {
 		pre = sc.Cap - 1 // the table is at its cap when the victim comes back
@@ -902,20 +930,20 @@ func c17ExecHTTP(r *sim.Run, sc *c17Scenario) {
 // ---- MQTT side --------------------------------------------------------------
 
 type c17MC struct {
-	sid        int
-	id         string
-	sentSeq    int
-	resSeq     int // CONNACK read
-	reapedSeq  int // the client saw the server close the connection
-	state      string
-	gone       bool // closed / aborted by the client, or seen closed
-	aborted    bool
-	takeAtCap  bool
-	conn       net.Conn
-	lingering  bool
-	pingSent   []int // sequence numbers at which this connection's PINGREQs were sent
-	answered   int   // how many of them were answered with a PINGRESP
-	clean      bool
+	sid       int
+	id        string
+	sentSeq   int
+	resSeq    int // CONNACK read
+	reapedSeq int // the client saw the server close the connection
+	state     string
+	gone      bool // closed / aborted by the client, or seen closed
+	aborted   bool
+	takeAtCap bool
+	conn      net.Conn
+	lingering bool
+	pingSent  []int // sequence numbers at which this connection's PINGREQs were sent
+	answered  int   // how many of them were answered with a PINGRESP
+	clean     bool
 }
 
 type c17M struct {
@@ -1592,19 +1620,21 @@ func TestVerifC17(t *testing.T) {
 		New:      func() interface{} { return &c17Scenario{} },
 		Exec:     c17Exec,
 		MaxSteps: 60000,
-		Rule: "scenario = kind (LimitListener under net/http | whole HTTPServer runtime | MQTT broker) + drawn cap 1-6 + 2-12 client tasks with drawn connection scripts (requests, idle, hold, close/reset/half-close; MQTT: ids from a pool slightly larger than the cap, takeovers, lingering connections, clients leaving before CONNACK) + 0-4 cap changes (HTTP) + temporary Accept errors (http-ll); " +
+		Rule: "scenario = kind (LimitListener under net/http | whole HTTPServer runtime | MQTT broker) + drawn cap 1-6 + 2-12 client tasks with drawn connection scripts (requests, idle, hold, close/reset/half-close; MQTT: ids from a pool slightly larger than the cap, takeovers with and without CleanSession, pings, lingering connections, clients leaving before CONNACK, 0-4 session deletes through the admin handler, optional slow Disconnect pipeline; a family aims a session delete at the instant the same id reconnects and lets fresh ids fill the table afterwards; final two-round ping roll call) + 0-4 cap changes (HTTP) + temporary Accept errors (http-ll); " +
 			"non-trivial = a client was held back at the cap (HTTP) / a CONNECT was refused with server-unavailable (MQTT); distinct = distinct histories of connect/accept/refuse/close/resize events",
 		Real: []string{"pkg/util/limitlistener (LimitListener, limitListenerConn)", "pkg/util/sem (Semaphore.SetMaxCount)", "golang.org/x/sync/semaphore", "net/http.Server",
-			"pkg/object/httpserver (HTTPServer.Init/Inherit/Close, runtime fsm, reload, startServer, mux)", "pkg/object/mqttproxy (Broker, Client, SessionManager, Session, TopicManager, mock storage)", "paho packets codec"},
+			"pkg/object/httpserver (HTTPServer.Init/Inherit/Close, runtime fsm, reload, startServer, mux)", "pkg/object/mqttproxy (Broker incl. httpDeleteSessionHandler / watchDelete / deleteSession, Client incl. the Disconnect pipeline hook, SessionManager, Session, TopicManager, mock storage with its delete watch)", "paho packets codec"},
 		Stub: []string{"TCP: simnet (listeners, connections, close/reset/half-close, segmentation, latency)", "github.com/megaease/grace (ListenHook hands the runtime a simnet listener)", "quic-go (not used)",
-			"sync/atomic of the instrumented files -> simsync/simatomic (same semantics + gates)", "multi-case selects of mqttproxy polled in a recorded order", "HTTP and MQTT clients (harness)"},
+			"sync/atomic of the instrumented files -> simsync/simatomic (same semantics + gates)", "multi-case selects of mqttproxy polled in a recorded order", "HTTP and MQTT clients (harness)", "MQTT Disconnect pipeline: a handler that only passes gates / lets virtual time pass", "admin API transport: httpDeleteSessionHandler is called with an httptest request"},
 		Assumptions: []string{
 			"a maxConnections change counts as applied from the first quiescent instant after the call at which open connections (+1 for a slot reserved by the waiting Accept) <= new cap; until then only open <= max(caps configured since the last applied one) is asserted",
 			"cap changes are issued by one admin task; server restarts (port / TLS / keep-alive changes) are not generated",
 			"a takeover of a connected MQTT client id while the broker is at its cap may be accepted or refused (statement silent); counted by probes",
-			"CleanSession=true only with client ids used once per run; such ids are not counted in the client-side connected set (the broker's session-delete watch may disconnect them)",
+			"ids used with CleanSession=true or targeted by a session delete are not counted in the client-side CONNACK-based connected set (the broker's session-delete watch may disconnect them at any time); they are covered by the ping evidence",
+			"a connection counts as open-and-served at an instant only if, after that instant, it got answers to two successive PINGREQs (a connection just dropped by the broker may still get its one outstanding packet answered); connections of one client id count once",
+			"nothing is asserted about how soon a session delete frees its slot; a reconnect killed by a delete event meant for its predecessor is accepted (C16 known finding)",
 			"a client leaving before its CONNACK resets the connection (RST); plain close before CONNACK is not generated (simnet fails the peer's next write immediately, TCP does not)",
-			"maxAllowedConnection=0 (unlimited) and the MQTT connection rate limiter are not generated",
+			"maxAllowedConnection=0 (unlimited), the MQTT connection rate limiter, keep-alive expiry and session-watch interruptions are not generated",
 		},
 	})
 }
